@@ -314,6 +314,11 @@ impl<T: Qcow2IoOps> Qcow2Dev<T> {
                     .await?;
                 l2_handle.set_dirty(false);
 
+                // the new mapping has to be on disk before the old clusters
+                // are released below: their refcount decrement must not
+                // become durable while the old mapping still is
+                self.call_fsync(0, usize::MAX, 0).await?;
+
                 // release l2 table, so that this new mapping can be flushed
                 // to disk
                 drop(l2_table);
